@@ -716,7 +716,9 @@ def eval_comprehension(interp: Interp, node, st: St, kind):
                 for s1, r1 in run_comprehension(interp, node, g, s, x, kind):
                     s1.env = dict(saved)
                     yield s1, r1
-            yield s0, ("ok", V("gen", thunk))
+            gv = V("gen", thunk)
+            gv.tag = ("genexp", node, g, x, dict(s0.env))
+            yield s0, ("ok", gv)
         else:
             try:
                 comp_results = list(run_comprehension(interp, node, g, s0.fork() if kind == "dict" else s0, x, kind))
@@ -892,6 +894,71 @@ def _native_comprehension(interp, node, g, st, x):
             else:
                 yield s, ("ok", r[1])
     return gen()
+
+
+def next_of_genexp(interp: Interp, st: St, gv: V, default=None):
+    """next(<generator expression over a symbolic sequence>): the value for the FIRST element that passes the filters;
+    StopIteration (or the default) when none does.  Filters and element expression must be effect-free single-path expressions."""
+    _, node, g, x, env = gv.tag
+    if len(node.generators) != 1 or not isinstance(g.target, ast.Name):
+        raise Unsupported("next() of a generator expression of this shape")
+    res = list(as_sym_seq(interp, st, x))
+    if len(res) != 1 or res[0][1][0] != "ok":
+        raise Unsupported("next() over a generator whose source may fail")
+    s, seq = res[0][0], res[0][1][1]
+    j = interp.ctx.fresh_int("nextj")
+
+    def eval_at(idx, expr_nodes):
+        """formula / value of the expressions with the loop variable bound to element idx"""
+        s2 = s.fork()
+        s2.env = dict(env)
+        s2.env[g.target.id] = seq.elem(s2, idx)
+        n_pc = len(s2.pc)
+        outs = []
+        for en in expr_nodes:
+            rr = list(interp.eval(en, s2))
+            if len(rr) != 1 or rr[0][1][0] != "ok":
+                raise Unsupported("next(): filter / element expression is not a single-path expression")
+            s2 = rr[0][0]
+            outs.append(rr[0][1][1])
+        return s2, outs, list(s2.pc[n_pc:])
+    s_j, conds, extra = eval_at(j, list(g.ifs))
+    cond_parts = []
+    for c in conds:
+        tr = list(interp.truth(s_j.fork(), c))
+        if c.kind == "bool":
+            cond_parts.append(c.d)
+        elif c.kind == "const":
+            cond_parts.append(z3.BoolVal(bool(c.d)))
+        else:
+            cond_parts.append(T.F_truth(interp.term(s_j, c)))
+    cond_j = z3.And(*cond_parts) if cond_parts else z3.BoolVal(True)
+    k = interp.ctx.fresh_int("nextk")
+    i = z3.Int("ni!")
+    # found
+    s_f = s.fork()
+    s_f.assume(z3.And(k >= 0, k < seq.length, z3.substitute(cond_j, (j, k))))
+    for f in extra:
+        s_f.assume(z3.substitute(f, (j, k)))
+    s_f.assume(z3.ForAll([i], z3.Implies(z3.And(i >= 0, i < k), z3.Not(z3.substitute(cond_j, (j, i))))))
+    if interp.check_sat(s_f):
+        s_f.env = dict(env)
+        s_f.env[g.target.id] = seq.elem(s_f, k)
+        rr = list(interp.eval(node.elt, s_f))
+        if len(rr) != 1 or rr[0][1][0] != "ok":
+            raise Unsupported("next(): element expression is not a single-path expression")
+        s_r = rr[0][0]
+        s_r.env = dict(st.env)
+        yield s_r, ("ok", rr[0][1][1])
+    # not found
+    s_n = s.fork()
+    s_n.assume(z3.ForAll([i], z3.Implies(z3.And(i >= 0, i < seq.length), z3.Not(z3.substitute(cond_j, (j, i))))))
+    if interp.check_sat(s_n):
+        s_n.env = dict(st.env)
+        if default is not None:
+            yield s_n, ("ok", default)
+        else:
+            yield s_n, (RAISE, interp.make_exception(s_n, StopIteration, []))
 
 
 def _comp_concrete(interp, st, items, body):
